@@ -745,8 +745,25 @@ func o3(w *World, r *Report) {
 	r.Check(rew != nil, "O-3", "unfreezingStakes:to-owner-in-full", "the owner (stake.From) is credited PowerToAmount(stake.Power) in the consensus overlay", "the refund does not credit PowerToAmount(power) to the stake's owner", fnSite(w, uf))
 	// iterates the frozen ledger's committed items
 	un := w.Method(pkgStake, "StakeCtrler", "unfreezingStakes")
-	okIt := un != nil && w.findCall(un, "recv.frozenLedger.IterateReadAllFinalityItems(closure(stake.(*StakeCtrler).unfreezingStakes$1))") != nil
-	r.Check(okIt, "O-3", "unfreezingStakes:scans-frozen-ledger", "every committed frozen stake is examined", "unfreezingStakes does not scan the frozen ledger", fnSite(w, uf))
+	okIt := false
+	if un != nil {
+		// every path through unfreezingStakes (helpers expanded) performs the scan: no
+		// shortcut may skip a block's examination of the frozen ledger
+		scanEv := func(in ssa.Instruction) string {
+			if c, isC := in.(ssa.CallInstruction); isC && strings.HasPrefix(w.canonCall(c.Common(), 0), "recv.frozenLedger.IterateReadAllFinalityItems(") {
+				return "SCAN"
+			}
+			return ""
+		}
+		paths, complete := w.enumPaths(un, func(ssa.Value) (bool, bool) { return false, false }, scanEv, 2000)
+		okIt = complete && len(paths) > 0
+		for _, p := range paths {
+			if (p.Term == "ok" || p.Term == "unknown") && len(p.Events) != 1 {
+				okIt = false
+			}
+		}
+	}
+	r.Check(okIt, "O-3", "unfreezingStakes:scans-frozen-ledger", "every committed frozen stake is examined, on every path, once per call", "unfreezingStakes can return without scanning the frozen ledger (a matured stake would stay locked)", fnSite(w, uf))
 	w.checkCallers(r, "O-3", fref{pkgStake, "StakeCtrler", "unfreezingStakes"}, map[string]string{"stake.(*StakeCtrler).EndBlock": "once per block"}, 1)
 	eb := needFn(r, "O-3", w, fref{pkgStake, "StakeCtrler", "EndBlock"})
 	if eb != nil {
